@@ -32,34 +32,64 @@ func (y CheckWhen) check(s *Selection, m meta.Meta) (bool, error) {
 	if s == nil {
 		return true, nil
 	}
+	// selection of the data node above m: s itself when m is a leaf
+	above := s
+	if !meta.IsLeaf(m) {
+		if above = s.parent; above != nil && s.InsideList {
+			above = above.parent
+		}
+	}
 	if hw, ok := m.(meta.HasWhen); ok {
 		if hw.When() != nil {
-			lookup := func(prefix string) (*meta.Module, error) {
-				// prefixes in the expression are those of the module the statement is written in
-				mod := meta.OriginalModule(m)
-				if mod.Prefix() == prefix {
-					return mod, nil
-				}
-				if imp, found := mod.Imports()[prefix]; found {
-					return imp.Module(), nil
-				}
-				if main := meta.BelongsToModule(mod); main.Prefix() == prefix {
-					return main, nil
-				}
-				return nil, fmt.Errorf("prefix '%s' in when expression \"%s\" is not defined", prefix, hw.When().Expression())
+			context := s
+			if hw.When().FromAncestor() && above != nil {
+				context = above
 			}
-			xp, err := xpath.Parse2(lookup, hw.When().Expression())
-			if err != nil {
-				return false, err
+			if proceed, err := y.eval(context, m, hw.When(), !hw.When().FromAncestor()); !proceed || err != nil {
+				return proceed, err
 			}
-			if meta.IsLeaf(m) && xp.Ident == ".." && xp.Expr == nil && xp.Next != nil {
-				// context node of a when on a leaf is the leaf and the selection is already the
-				// leaf's parent: the first step up has been taken
-				xp = xp.Next
+		}
+	}
+	// when on the case and the choice m is in, their context is the data node above
+	for p := m.Parent(); p != nil && above != nil; p = p.Parent() {
+		_, isCase := p.(*meta.ChoiceCase)
+		_, isChoice := p.(*meta.Choice)
+		if !isCase && !isChoice {
+			break
+		}
+		if hw, ok := p.(meta.HasWhen); ok && hw.When() != nil {
+			if proceed, err := y.eval(above, m, hw.When(), false); !proceed || err != nil {
+				return proceed, err
 			}
-			proceed, err := s.XPredicate(xp)
-			return proceed, err
 		}
 	}
 	return true, nil
+}
+
+// own says the when was written on m itself
+func (y CheckWhen) eval(s *Selection, m meta.Meta, when *meta.When, own bool) (bool, error) {
+	lookup := func(prefix string) (*meta.Module, error) {
+		// prefixes in the expression are those of the module the statement is written in
+		mod := meta.OriginalModule(m)
+		if mod.Prefix() == prefix {
+			return mod, nil
+		}
+		if imp, found := mod.Imports()[prefix]; found {
+			return imp.Module(), nil
+		}
+		if main := meta.BelongsToModule(mod); main.Prefix() == prefix {
+			return main, nil
+		}
+		return nil, fmt.Errorf("prefix '%s' in when expression \"%s\" is not defined", prefix, when.Expression())
+	}
+	xp, err := xpath.Parse2(lookup, when.Expression())
+	if err != nil {
+		return false, err
+	}
+	if own && meta.IsLeaf(m) && xp.Ident == ".." && xp.Expr == nil && xp.Next != nil {
+		// context node of a when on a leaf is the leaf and the selection is already the
+		// leaf's parent: the first step up has been taken
+		xp = xp.Next
+	}
+	return s.XPredicate(xp)
 }
